@@ -80,9 +80,9 @@ CLAIMS = {
             "Lean 4, fully symbolic: for EVERY matrix of odd side (all 40 symbol sides are odd) the model of "
             "print_matrix_with_margin has (n+1)/2+1 lines of n+2 characters over the four glyphs and reading each character as a "
             "(top, bottom) pair reproduces every module in place inside a one-module light border (C16_terminal, by induction "
-            "over the row pairs; no finite enumeration). Correspondence: real to_str() on symbols of all 40 sizes equals the "
+            "over the row pairs; no finite enumeration); closed over the builder: every symbol the model builder returns, for every input and legal option combination, renders to text the reader accepts (C16_built, side from C03_invariance). Correspondence: real to_str() on symbols of all 40 sizes equals the "
             "model's string byte for byte, and the spec decoder accepts it.",
-            "Trusted: Lean kernel (axioms propext, Classical.choice, Quot.sound); hand model of helpers.rs (35 lines) tied by exact-string correspondence.",
+            "Trusted: Lean kernel (C16_terminal: axioms propext, Classical.choice, Quot.sound only; C16_built additionally inherits the native_decide template/scan checkers through C03_invariance); hand model of helpers.rs (35 lines) tied by exact-string correspondence.",
             "Lean 4 symbolic proof (induction over lines) + exact-string differential check on all 40 sizes"),
     "C12": ("proof",
             "Lean 4 on the model of SvgBuilder (custom Shape::Command layers included since round 9: C12_custom_calls / C12_custom_dark — the command is called once per dark module, row-major, at (row+margin, column+margin), with the symbol's own module; C15_custom_labels — on every built symbol that module carries the ISO region label): unescape(escape s) = s and the escaped href contains no quote or '<' for EVERY "
